@@ -1,8 +1,22 @@
-"""C38 — bounded run-time contract check (see checks/C38_bounded.py for the contract and scope); proof kernel: see DESIGN §5 C38."""
-from vlib.thin import run_bounded_only
+"""C38 — instrumented collections behave like the Python types they wrap: the integer-index list operations under proof
+(contents and exactly the right events), everything else (slices, sets, dicts) as the bounded complement."""
+import importlib
+import contracts.collections_list  # noqa: F401
+from pyvc.contract import FUNCS
+from vlib.proof import run_proofs
+from vlib.bounded import run_bounded
 
-LEVEL = "exploration"
+LEVEL = "proof"
+KEYS = [k for k, c in FUNCS.items() if "C38" in c.props and c.proof and not c.abstract]
 
 
 def run(run, tier, seed, args):
-    run_bounded_only(run, "C38", tier, seed)
+    run_proofs(run, KEYS, tier, update_baseline=args.update_baseline, source_root=args.source_root)
+    if not args.source_root:
+        run_bounded(run, [k for k in KEYS if FUNCS[k].harness], tier)
+        importlib.import_module("checks.C38_bounded").bounded(run, tier, seed)
+    run.assumptions += [
+        "assumed contracts on the event helpers: __set logs ('A', item) and returns the item unchanged, __del logs ('R', item), __before_pop does nothing observable",
+        "`fn` is the builtin list method of the same name (builtin contract); user-defined __eq__ of members is not modelled",
+        "under proof: append, insert, remove, __setitem__(int), __delitem__(int), pop; slice forms, extend, +=, clear, and the set/dict decorators are in the bounded complement (slice assignment has known defects, DESIGN §6 #3-#5)",
+    ]
